@@ -324,3 +324,5 @@ PROP = Prop(
                quick_shards=3, min_nontrivial=100, doc="= inversion on the documented evaluation points"),
     ],
 )
+
+RULE_EXTRA = ('integer score dtype; interior touches/runs completeness; re-assigned score arrays on the object; clause large_inputs with 6e6-1.2e7 (sample, target) pairs.')
